@@ -19,7 +19,8 @@ def run(chk):
     chk.rule = (f"every string of ≤ {L} symbols over {{1,2,0,-,+,:,=,{{,}},comma,backslash,n,a,space,é}} (exhaustive) + random strings of 6-14 symbols "
                 "biased to near-valid format strings + boundary integers; accept/reject and the parsed list compared with the grammar; every accepted "
                 "string of the exhaustive stream up to length 4 is also rendered on probe records (cut through main's dispatch) against the executed "
-                "specification; non-trivial = string of length ≥ 2; distinct by string")
+                "specification; a sample of accepted strings and 2500 strings that look like flag clusters (leading '-', letters g j m p s z) as a command-line value of "
+                "the real binary vs the library on the same text; non-trivial = string of length ≥ 2; distinct by string")
     run_corpus(chk)
     rng = chk.rng
     strs = list(strings_upto(ALPHA, L))
@@ -68,3 +69,36 @@ def run(chk):
     for l, i in zip(lj, ji):
         if i != "badbounds":
             chk.report_oracle("a rejected bounds string reached the cutter", {"case": l, "implementation": i})
+
+    # the same strings as a command-line VALUE of the real binary: what reaches the parser must be the text that was written (pico_args looks
+    # flags up inside single-dash arguments; values are taken first, so a value that looks like flags is still a value)
+    from common import build_tuc, run_cli
+    tuc = build_tuc(release=False)
+    flaggy = ["-", "- ", "-1", "-3=", "{1}", "{-1}", ":", "j", "g", "m", "z", "p", "s", "jr", " project: ", "obj", "=jz", "{2=mg}", "x", ","]
+    vals = []
+    for _ in range(2500 if chk.tier == "quick" else 25000):
+        v = "".join(rng.choice(flaggy) for _ in range(rng.randint(1, 5)))
+        if rng.random() < 0.7 and not v.startswith("-"):
+            v = "-" + v
+        vals.append(v)
+    vals += [x for x in rng.sample(accepted, min(len(accepted), 1500)) if x]
+    vals = [v for v in vals if "\0" not in v]
+    lib = [{"kind": "cut", "eng": "auto", "d": b",", "b": v, "in": b"a,b,c\n"} for v in vals]
+    ll = [case_line(c) for c in lib]
+    li = run_impl(ll)
+    opt = rng.choice(["-f", "--fields"])
+    cres = run_cli(tuc, [(["-d", ",", opt, v], b"a,b,c\n") for v in vals])
+    for v, l, i, (st, out) in zip(vals, ll, li, cres):
+        chk.evaluations += 1
+        chk.count("cli-value")
+        chk.nontrivial_add(("cli-value", v))
+        ist, iout = parse_result(i)
+        if i == "badbounds":
+            ok = st == "1" and out == b""
+        elif ist in ("ok", "fail"):
+            ok = st == ("0" if ist == "ok" else "1") and out == iout
+        else:
+            ok = True
+        if not ok:
+            chk.report_oracle("a bounds string given on the command line is not treated as the parser treats that text (altered, or accepted / rejected differently)",
+                              {"argv": ["-d", ",", opt, v], "stdin_hex": b"a,b,c\n".hex(), "binary": [st, out.hex()], "library_on_the_same_text": i, "case": l})
